@@ -24,8 +24,10 @@ def SCL.wf (l : SCL) : Bool :=
 
 /-- type invariants of the Rust values (field widths, record sizes, the
 `StandardCommunitiesList` invariant) plus, for the two AS path kinds, the hop
-paths of C13 (`WfHops`, which excludes K2: a segment hop with more than 255
-ASNs); segment hops may be stored in either width. -/
+paths of C13's quantifier (`WfHops`: excludes K2, a segment hop with more than
+255 ASNs, AND a non-empty AS_SEQUENCE held as one segment hop – the latter is
+API-buildable and admitted by `WfAttrG` below); segment hops may be stored in
+either width. -/
 def WfAttrW : TypedAttr → Bool
   | .origin v => decide (v < 256)
   | .asPath h => WfHops h
@@ -270,5 +272,154 @@ theorem value_spec (a : TypedAttr) (wf : WfAttrW a = true) :
       by simp [parseValue, TypedAttr.code, TypedAttr.norm, rd32_be32 o hn]⟩
   | reserved raw =>
     exact ⟨raw, rfl, rfl, by simp [validate, TypedAttr.code], by simp [parseValue, TypedAttr.code, TypedAttr.norm]⟩
+
+/-! ### every API-buildable value: AS paths holding any segment hop that has a wire form -/
+
+/-- as `WfAttrW`, but the hop path of AS_PATH / AS4_PATH may be ANY hop path the
+public API builds minus K2 (`WfHopsG`): also a non-empty AS_SEQUENCE held as one
+`Hop::Segment`, and two-octet segment hops. -/
+def WfAttrG : TypedAttr → Bool
+  | .asPath h => WfHopsG h
+  | .as4Path h => WfHopsG h
+  | a => WfAttrW a
+
+/-- the normal form of a value: the hop path of AS_PATH / AS4_PATH replaced by
+its flat hop sequence (an AS_SEQUENCE segment hop becomes its ASNs, segment hops
+become four octets wide) – the value a receiver sees. Every other kind is its
+own normal form. -/
+def TypedAttr.normG : TypedAttr → TypedAttr
+  | .asPath h => .asPath (flat true h)
+  | .as4Path h => .as4Path (flat true h)
+  | a => a
+
+theorem wfAttrG_of_wfAttrW (a : TypedAttr) (wf : WfAttrW a = true) : WfAttrG a = true := by
+  cases a <;> first
+    | exact wf
+    | exact wfHopsG_of_wfHops _ (by simpa [WfAttrW] using wf)
+
+theorem normG_eq_norm (a : TypedAttr) (wf : WfAttrW a = true) : a.normG = a.norm := by
+  cases a <;> first
+    | rfl
+    | (simp only [TypedAttr.normG, TypedAttr.norm]
+       rw [flat_of_wfHops true _ (by simpa [WfAttrW] using wf)])
+
+theorem normG_idem (a : TypedAttr) : a.normG.normG = a.normG := by
+  cases a <;> first
+    | rfl
+    | simp only [TypedAttr.normG, flat_idem]
+
+theorem normG_code (a : TypedAttr) : a.normG.code = a.code := by cases a <;> rfl
+
+/-- the normal form of an API-buildable value is a value over the hop paths of
+C13's quantifier with four-octet segment hops (`WfAttr`). -/
+theorem normG_wf (a : TypedAttr) (wf : WfAttrG a = true) : WfAttr a.normG = true := by
+  cases a <;> first
+    | (simp only [WfAttr, TypedAttr.normG, pathsFour, Bool.and_true]; exact wf)
+    | (rename_i h
+       obtain ⟨f1, f2⟩ := wfHops_flat h (by simpa [WfAttrG] using wf)
+       simp [WfAttr, WfAttrW, TypedAttr.normG, pathsFour, f1, f2])
+
+/-- a value is its own normal form exactly when it is `WfAttr`: no non-empty
+AS_SEQUENCE held as one segment hop, segment hops four octets wide. -/
+theorem normG_eq_self_iff (a : TypedAttr) (wf : WfAttrG a = true) :
+    a.normG = a ↔ WfAttr a = true := by
+  constructor
+  · intro e
+    have := normG_wf a wf
+    rwa [e] at this
+  · intro w
+    have hw : WfAttrW a = true := by
+      simp only [WfAttr, Bool.and_eq_true] at w; exact w.1
+    rw [normG_eq_norm a hw, norm_of_wf a w]
+
+theorem path_specG (h : HopPath) (hp : WfHopsG h = true) :
+    ∃ w, pathBytes h = .ok w ∧ pathValid true w = true ∧
+      parsePath true w = .ok (flat true h) := by
+  obtain ⟨w, _, c1, c2, _, _, _, c6⟩ := compose_readG h hp
+  exact ⟨w, by simp [pathBytes, c1], by simp [pathValid, c2], by simp [parsePath, c2, c6]⟩
+
+/-- `value_spec` for every API-buildable value: `parse` returns the normal form. -/
+theorem value_specG (a : TypedAttr) (wf : WfAttrG a = true) :
+    ∃ v, composeValue a = .ok v ∧ valueLen a = .ok v.length ∧
+      validate a.code true v = some true ∧ parseValue a.code true v = .ok a.normG := by
+  cases a with
+  | asPath h =>
+    obtain ⟨w, p1, p2, p3⟩ := path_specG h (by simpa [WfAttrG] using wf)
+    exact ⟨w, by simp [composeValue, p1], by simp [valueLen, p1],
+      by simp [validate, TypedAttr.code, p2], by simp [parseValue, TypedAttr.code, TypedAttr.normG, p3]⟩
+  | as4Path h =>
+    obtain ⟨w, p1, p2, p3⟩ := path_specG h (by simpa [WfAttrG] using wf)
+    exact ⟨w, by simp [composeValue, p1], by simp [valueLen, p1],
+      by simp [validate, TypedAttr.code, p2], by simp [parseValue, TypedAttr.code, TypedAttr.normG, p3]⟩
+  | _ => exact value_spec _ wf
+
+
+/-! ### the `_ => .err` arms of `parseValue` / `toOwned` never swallow a panic
+
+`parseValue` (codes 2, 17: `match parsePath .. | .ok h => .. | _ => .err`; the
+`dec32O` / `chunkO` arms) and `toOwned` (`| _ => .err`) collapse every non-`ok`
+outcome of their scrutinee into `.err`. In Rust a panic of `to_hop_path` (the
+`expect`s of `PathSegments`) would NOT become an `Err`. The lemmas below show
+that none of these scrutinees is ever `.panic`, i.e. the model with the panic
+propagated (`| .panic => .panic | .err => .err`) is the same function: in
+particular `to_hop_path` after a successful `AsPath::new` cannot panic. -/
+
+theorem parsePath_no_panic (four : Bool) (v : Bytes) : parsePath four v ≠ .panic := by
+  unfold parsePath
+  cases hc : check four v with
+  | ok u =>
+    cases u
+    obtain ⟨ss, _, _, _, hh, _⟩ := wire_view four v hc
+    simp [hh]
+  | err => simp
+  | panic => simp
+
+theorem dec32O_no_panic : ∀ (v : Bytes), dec32O v ≠ .panic
+  | [] => by simp [dec32O]
+  | [_] => by simp [dec32O]
+  | [_, _] => by simp [dec32O]
+  | [_, _, _] => by simp [dec32O]
+  | a :: b :: c :: d :: r => by
+    have ih := dec32O_no_panic r
+    simp only [dec32O]
+    cases h : dec32O r with
+    | ok l => simp
+    | err => simp
+    | panic => exact absurd h ih
+
+theorem chunkO_no_panic (k : Nat) : ∀ (f : Nat) (v : Bytes), chunkO k f v ≠ .panic
+  | 0, v => by unfold chunkO; split <;> simp
+  | f + 1, v => by
+    unfold chunkO
+    split
+    · simp
+    · cases ht : takeN k v with
+      | none => simp
+      | some p =>
+        obtain ⟨c, r⟩ := p
+        have ih := chunkO_no_panic k f r
+        simp only
+        cases h : chunkO k f r with
+        | ok l => simp
+        | err => simp
+        | panic => exact absurd h ih
+
+
+/-! ### Rust's `==` and the stored width of segment hops -/
+
+theorem segEq_setFour (b : Bool) (s : Seg) : segEq (s.setFour b) s = true := by
+  simp [segEq, Seg.setFour]
+
+theorem hopPathEq_norm (b : Bool) : ∀ (h : HopPath), hopPathEq (h.map (Hop.norm b)) h = true
+  | [] => rfl
+  | .asn n :: r => by simp [hopPathEq, hopEq, Hop.norm, hopPathEq_norm b r]
+  | .seg s :: r => by simp [hopPathEq, hopEq, Hop.norm, segEq_setFour, hopPathEq_norm b r]
+
+/-- Rust's `==` does not see the re-reading of segment hops four octets wide -/
+theorem eqRust_norm (a : TypedAttr) : a.norm.eqRust a = true := by
+  cases a <;> first
+    | simp [TypedAttr.norm, TypedAttr.eqRust, hopPathEq_norm]
+    | simp [TypedAttr.norm, TypedAttr.eqRust]
+
 
 end Rc.Attr
